@@ -146,7 +146,7 @@ def false_issue_signature(m, issue, vi):
             kinds = set()
             l = m.get_first_leaf()
             while l is not None and l.start_pos < issue.start_pos:
-                if l.type == 'name' and l.value == name:
+                if l.type == 'name' and l.value == name and l.parent.type not in ('global_stmt', 'nonlocal_stmt'):
                     p = l.parent
                     imp = l.search_ancestor('import_name', 'import_from')
                     if imp is not None:
@@ -182,7 +182,12 @@ def false_issue_signature(m, issue, vi):
         else:
             dec += scope
     else:
-        dec = scope + [t for t in tags if t in ('in-fstring', 'keyword-argument-name', 'in-import')]
+        # the enclosing scope only matters for the placement rules (yield/await/return/async); elsewhere it is noise
+        placement = any(w in msg for w in ('outside', 'async', 'await', 'yield', 'return', 'nonlocal', 'global'))
+        dec = (scope if placement else []) + [t for t in tags if t in ('keyword-argument-name', 'in-import')]
+        leaf0 = leaf_starting_at(m, issue.start_pos)
+        if leaf0 is not None and leaf0.type == 'fstring_string':
+            dec.append('on-fstring-literal-text')
         if 'starred' in msg or 'assign' in msg or 'delete' in msg:
             leaf = leaf_starting_at(m, issue.start_pos)
             anc = []
